@@ -248,12 +248,43 @@ def make_shims(sched: Sched):
                 return True
             return sched.block(timeout=timeout, ev=self)
 
+    class Lock:
+        """Baton-aware mutex: a thread preempted while holding it does not wedge the real
+        threads - waiters park in the scheduler until it is released."""
+
+        def __init__(self):
+            self._free = Event()
+            self._free._flag = True
+
+        def acquire(self, blocking=True, timeout=-1):
+            while not self._free._flag:
+                if not blocking:
+                    return False
+                sched.block(ev=self._free, timeout=None if timeout is None or timeout < 0 else timeout)
+                if timeout is not None and timeout >= 0 and not self._free._flag:
+                    return False
+            self._free._flag = False
+            return True
+
+        def release(self):
+            self._free._flag = True
+
+        def locked(self):
+            return not self._free._flag
+
+        def __enter__(self):
+            self.acquire()
+            return self
+
+        def __exit__(self, *a):
+            self.release()
+
     thr = types.SimpleNamespace(
         Thread=Thread,
         Event=Event,
         current_thread=_rt.current_thread,
         enumerate=_rt.enumerate,
-        Lock=_rt.Lock,
+        Lock=Lock,
         RLock=_rt.RLock,
         Timer=None,
     )
@@ -287,3 +318,40 @@ def uninstall():
     if "threading" in _saved:
         si.threading = _saved.pop("threading")
         si.time = _saved.pop("time")
+
+
+def install_line_preemption(sched: Sched, plan, codes):
+    """Line-level preemption inside selected functions.
+
+    A trace function counts the 'line' events of frames whose code object is in `codes` (across
+    all threads, in baton order - so the count is a deterministic function of the schedule); when
+    the count is in `plan` the running thread hands the baton over (`sched.yield_()`), i.e. it is
+    preempted *before* that line executes. Returns (uninstall, hits, counter)."""
+    import sys
+
+    plan = set(plan)
+    counter = [0]
+    hits = []
+
+    def local(frame, event, arg):
+        if event == "line":
+            counter[0] += 1
+            if counter[0] in plan and not sched.dead and not sched.overrun:
+                hits.append((counter[0], frame.f_code.co_name, frame.f_lineno, sched.cur.name))
+                sched.yield_()
+        return local
+
+    def tracer(frame, event, arg):
+        if event == "call" and frame.f_code in codes:
+            return local
+        return None
+
+    prev = sys.gettrace()
+    _rt.settrace(tracer)
+    sys.settrace(tracer)
+
+    def un():
+        _rt.settrace(None)
+        sys.settrace(prev)
+
+    return un, hits, counter
